@@ -2,6 +2,8 @@ package rules
 
 import (
 	"fmt"
+	"go/types"
+	"strings"
 	"os"
 	"sort"
 	"testing"
@@ -33,4 +35,32 @@ func TestListFns(t *testing.T) {
 		t.Fatal(err)
 	}
 	fmt.Println(len(xs), "functions")
+	// struct types and their fields
+	var ls []string
+	for _, pk := range p.Pkgs {
+		if !strings.HasPrefix(pk.PkgPath, an.Module) || pk.Types == nil {
+			continue
+		}
+		sc := pk.Types.Scope()
+		for _, name := range sc.Names() {
+			tn, ok := sc.Lookup(name).(*types.TypeName)
+			if !ok {
+				continue
+			}
+			st, ok := tn.Type().Underlying().(*types.Struct)
+			if !ok || st.NumFields() == 0 {
+				continue
+			}
+			var fs []string
+			for i := 0; i < st.NumFields(); i++ {
+				fs = append(fs, st.Field(i).Name()+" "+types.TypeString(st.Field(i).Type(), func(q *types.Package) string { return q.Path() }))
+			}
+			ls = append(ls, pk.PkgPath+"."+name+": "+strings.Join(fs, "; "))
+		}
+	}
+	sort.Strings(ls)
+	if err := os.WriteFile("../an/pinned_fields.txt", []byte(strings.Join(ls, "\n")+"\n"), 0o644); err != nil {
+		t.Fatal(err)
+	}
+	fmt.Println(len(ls), "struct types")
 }
